@@ -84,6 +84,10 @@ def run(F, R):
     # that are still outstanding - one descriptor then belongs to two chains); shared with C03.E5
     from .C03 import counters_rule
     counters_rule(F, R, 'F10')
+    # F11: the device finds the ring slot of an entry with the queue size it was told: queue_set receives SIZE (and the
+    # queue's own index and areas) - shared with C06.L3
+    from .C06 import registration_rule
+    registration_rule(F, R, 'F11')
     from .C03 import e3_capacity
     for add_id in pubs:
         e3_capacity(F, R, M, add_id, rule='F8', rule1='F8')
